@@ -178,7 +178,7 @@ def main(ck, tier, w):
             r = run.run_parser(cl, 'csvdump', dump=w.mk('out'), coin=fc, threads=[16, 64, 8][i % 3], verbose=0)
             shutil.rmtree(cl, ignore_errors=True)
             return r
-        rs = chains.pmap(frun, range(60 if quick else 400), 8)
+        rs = chains.pmap(frun, range(200 if quick else 800), 6)
         ck.evals(len(rs))
         ck.distinct(('first-use', fc))
         wrong = [r for r in rs if r.rc != 0 or r.files.get('tx_out-0-0.csv') != fexp['tx_out']]
